@@ -208,6 +208,18 @@ def extract():
     ok &= re.search(r"let \(head, tail\) = segments\.split_first\(\)\.unwrap\(\); match \*head \{", exp) is not None and tails(exp) == 1
     ok &= re.search(r"if segments\.is_empty\(\) \{", exp) is not None
     f["deriveTailTests"] = bool(ok)
+    # ---- no timer / sleep / retry / deadline arm in the loops the property runs through
+    TIMER = r"\bsleep\b|\bInstant\b|\belapsed\b|\binterval\b|\bretr(?:y|ies)\b|\battempts?\b|\bdeadline\b|\bDuration\b|\btimeout_at\b|\bnow\(\)|\bpark_timeout\b|\brecv_timeout\b|\bwait_timeout\b|\btry_recv\b|\byield_now\b"
+    def quiet(body, allowed_timeouts):
+        c = " ".join(body.split())
+        if re.search(TIMER, c): return False
+        ts = re.findall(r"\btimeout\(\s*(\w+)", c)
+        bound = set(re.findall(r"if let Some\((\w+)\) = (?:read|write)_timeout", c))
+        return len(ts) == allowed_timeouts and all(t in bound for t in ts)
+    aconn = fn_body(asrc, "handle_connection")
+    a_ok = quiet(aconn, 3) and len(re.findall(r"if let Some\(\w+\) = (?:read|write)_timeout", " ".join(aconn.split()))) == 2
+    f["serveLoopsHaveNoExtraTimers"] = bool(quiet(srv_conn, 0) and a_ok and quiet(nx, 0) and quiet(fn_body(router, "get"), 0)
+                                            and quiet(fn_body(src, "dispatch_struct_segments"), 0))
     # the trait default itself
     tr = impl_block(src, r"pub trait HandlerErased\s*:\s*Send \+ Sync\s*\{")
     if not re.fullmatch(r"\s*self\.handle_with_ctx\(&view\.to_message\(\), ctx\)\s*", fn_body(tr, "handle_view")): raise ExtractError("HandlerErased::handle_view default not recognised")
@@ -238,7 +250,8 @@ def render(f):
     L.append(f"    structEmptyBodyIsRead := {b(f['structEmptyBodyIsRead'])},")
     L.append(f"    adapterGate := {gate_s(f['adapterGate'])},")
     L.append(f"    serversEchoViewQuery := {b(f['serversEchoViewQuery'])},")
-    L.append(f"    deriveTailTests := {b(f['deriveTailTests'])} }}")
+    L.append(f"    deriveTailTests := {b(f['deriveTailTests'])},")
+    L.append(f"    serveLoopsHaveNoExtraTimers := {b(f['serveLoopsHaveNoExtraTimers'])} }}")
     L.append("end Repe.Gen")
     return "\n".join(L) + "\n"
 
